@@ -200,14 +200,14 @@ Qed.
 Example vgenesis_example :
   let p1 := {| p_name := 1; p_vtype := 5; p_lock_start := 10; p_lock_end := 50; p_locked := 100; p_withdrawn := 20; p_sent := 30; p_genesis := true |} in
   let p2 := {| p_name := 2; p_vtype := 5; p_lock_start := 10; p_lock_end := 50; p_locked := 7; p_withdrawn := 0; p_sent := 0; p_genesis := false |} in
-  let g := {| vg_denom_nonempty := true; vg_denom_ok := true;
+  let g := {| vg_denom := 1; vg_denom_nonempty := true; vg_denom_ok := true;
               vg_vtypes := [{| gv_name := 5; gv_lock_unit := 0; gv_lock := 3; gv_vest_unit := 1; gv_vest := 4; gv_free := 0 |}];
               vg_owners := [{| go_owner := 2; go_addr_ok := true; go_pools := [p1] |}; {| go_owner := 1; go_addr_ok := true; go_pools := [p2] |}];
               vg_traces := []; vg_trace_count := 0 |} in
   vgenesis_valid g = true /\
   (exists s, vgenesis_init g 57 = Some s /\ map fst (vs_pools s) = [1; 2]) /\
   vgenesis_init g 58 = None /\
-  vgenesis_init {| vg_denom_nonempty := true; vg_denom_ok := true; vg_vtypes := []; vg_owners := []; vg_traces := []; vg_trace_count := 0 |} 100 = None.
+  vgenesis_init {| vg_denom := 1; vg_denom_nonempty := true; vg_denom_ok := true; vg_vtypes := []; vg_owners := []; vg_traces := []; vg_trace_count := 0 |} 100 = None.
 Proof. vm_compute. repeat split. eexists; split; reflexivity. Qed.
 
 (* ------------------------------------------------------------------ C12: lineage traces and vesting types *)
@@ -362,4 +362,15 @@ Proof.
   destruct (negb (genesis_locked g =? B)); [discriminate|]. destruct (existsb (fun t => gv_name t =? 0) (vg_vtypes g)); [discriminate|].
   destruct (existsb _ (map gvtype_entry (vg_vtypes g))); [discriminate|]. intros H. injection H as <-. cbn [vs_vtypes].
   apply vtypes_store_sorted.
+Qed.
+
+(* the denomination: InitGenesis stores the parameters of the genesis and ExportGenesis writes the stored ones — an exported
+   genesis names the denomination the chain was started with *)
+Theorem init_keeps_the_denomination g B s : vgenesis_init g B = Some s -> vs_denom s = vg_denom g.
+Proof.
+  unfold vgenesis_init. destruct (negb (vg_denom_nonempty g && vg_denom_ok g)); [discriminate|].
+  destruct (negb (genesis_locked g =? B)); [discriminate|].
+  destruct (existsb (fun t => gv_name t =? 0) (vg_vtypes g)); [discriminate|].
+  destruct (existsb _ (map gvtype_entry (vg_vtypes g))); [discriminate|].
+  intros H. inversion H. reflexivity.
 Qed.
